@@ -19,6 +19,8 @@ HA(I, h, idle, k) == [v \in VarSet(I) |-> IF v \in HActive(I) THEN h[v][k] ELSE 
 HSteps(I, h) == {k \in HBoundaries(I, h) : (k + 1) \in HBoundaries(I, h)}
 
 \* C03: the global cost never gets worse from one boundary to the next
+HCostBadSteps(I, h, idle) == {k \in HSteps(I, h) : Better(I, Cost(I, HA(I, h, idle, k)), Cost(I, HA(I, h, idle, k + 1)))}
+HStagnationBadSteps(I, h, idle) == {k \in HSteps(I, h) : HA(I, h, idle, k) = HA(I, h, idle, k + 1) /\ ~OneOpt(I, HA(I, h, idle, k))}
 HCostMonotone(I, h, idle) == \A k \in HSteps(I, h) : ~Better(I, Cost(I, HA(I, h, idle, k)), Cost(I, HA(I, h, idle, k + 1)))
 \* C03: two variables sharing a constraint never change value in the same cycle, except the pairs in allowed(k)
 HMoveAlone(I, h, idle, allowed(_)) ==
